@@ -84,7 +84,7 @@ template <class T, class Raw, class Car> struct Exec {
   void set_one(size_t i, bool viaref) { T v = val(); if (viaref) en[i].mut(car.mut(), v); else en[i].set(car.mut(), v); head(viaref ? "MutOne" : "SetOne"); printf(",\"name\":\"%s\",\"v\":%lld", en[i].name, (long long)v); tail(); }
   void read_one(size_t i) { T o = en[i].read(car.get()); head("ReadOne"); printf(",\"name\":\"%s\",\"obs\":%lld", en[i].name, (long long)o); tail(); }
   void set_all(int how) { auto t = tup(); const char* e = "SetAllArray";
-    if (how == 0) S::set_array(car.mut(), t); else if (how == 1) { S::set_list(car.mut(), t); e = "SetAllList"; } else if (how == 2) { S::mut_all(car.mut(), t); e = "MutAll"; } else { car.assign(Raw(t)); e = "AssignArray"; }
+    if (how == 0) S::set_array(car.mut(), t); else if (how == 1) { S::set_list(car.mut(), t); e = "SetAllList"; } else if (how == 2) { S::mut_all(car.mut(), t); e = "MutAll"; } else { if (how == 3) car.assign(Raw(t)); else car.mut() = t;   /* operator=(std::array) of the raw shape */ e = "AssignArray"; }
     head(e); pj("t", t); tail(); }
   void zero() { car.zero(); head("Zero"); tail(); }
   template <class R = Raw> void dyad_only(int how) {
@@ -96,11 +96,11 @@ template <class T, class Raw, class Car> struct Exec {
   void run(int steps) {
     head("Reset"); tail();
     for (size_t i = 0; i < en.size(); i++) { set_one(i, false); for (size_t j = 0; j < en.size(); j++) read_one(j); set_one(i, true); read_one(i); }   // every name, both entry points
-    for (int h = 0; h < 4; h++) { set_all(h); read_one(g() % en.size()); }
+    for (int h = 0; h < 5; h++) { set_all(h); read_one(g() % en.size()); }
     zero(); dyad_only(0); dyad_only(1); dyad_only(0); dyad_only(2); dyad_only(0);
     for (int k = 0; k < steps; k++) { unsigned c = g() % 16;
       if (c < 5) set_one(g() % en.size(), false); else if (c < 9) set_one(g() % en.size(), true); else if (c < 12) read_one(g() % en.size());
-      else if (c < 14) set_all((int)(g() % 4)); else if (c == 14) dyad_only((int)(g() % 3)); else zero(); }
+      else if (c < 14) set_all((int)(g() % 5)); else if (c == 14) dyad_only((int)(g() % 3)); else zero(); }
   }
 };
 template <class T> static void all_for(uint64_t seed, int steps) {
